@@ -357,7 +357,7 @@ pub fn classify(c: &Case) -> Classes {
 
 fn strategy(tier: Tier) -> BoxedStrategy<Case> {
     let budget = tier.pick(64 * 1024u32, 512 * 1024u32);
-    let secret = || (gen::key32(), any::<u64>(), any::<u64>()).prop_map(|(key, ctx_seed, seed)| Secret { key, ctx_seed, content: Content { kind: 3, seed } });
+    let secret = || (gen::key32(), any::<u64>(), any::<u64>(), prop_oneof![2 => Just(3u8), 1 => Just(5u8)]).prop_map(|(key, ctx_seed, seed, kind)| Secret { key, ctx_seed, content: Content { kind, seed } });
     (
         (0u8..3, 0u16..=120, prop::collection::vec(hist::size(30_000), 0..=8), gen::position_lattice(), 0u16..=300),
         (secret(), secret(), gen::counter_lattice()),
